@@ -165,6 +165,8 @@ class Resource:
 
     def close(self):
         self.closes += 1
+        if self.rid % 3 == 0:
+            raise RuntimeError("resource %d fails to close" % self.rid)     # close() of a resource may raise
 
 
 class Rig:
@@ -204,13 +206,33 @@ class Rig:
             def clientDisconnect(self, conn):
                 idx = conn.sock.index
                 rig.hooks[idx] = rig.hooks.get(idx, 0) + 1
+                if idx in rig.hook_raises:
+                    raise RuntimeError("user disconnect hook fails for connection %d" % idx)
 
             def annotations(self):
                 return dict(rig.daemon_annotations)
 
         self.daemon_annotations = {}
+        self.hook_raises = set()
         self.gates = {}
         self.gated = set()
+        self.gate_threads = {}
+        self._orig_oneway_run = server._OnewayCallThread.run
+
+        def delayed_run(thread_self):
+            # a history may delay the START of a oneway thread (before it copies the context back in)
+            try:
+                spec = thread_self.pyro_vargs[0]
+                g = spec.get("startgate") if isinstance(spec, dict) else None
+            except Exception:
+                g = None
+            if g is not None:
+                rig.gate_threads.setdefault(g, []).append(threading.current_thread())
+                rig.gated.add(threading.current_thread())
+                rig.gate(g).wait(WAIT)
+                rig.gated.discard(threading.current_thread())
+            return rig._orig_oneway_run(thread_self)
+        server._OnewayCallThread.run = delayed_run
         self.daemon = RigDaemon(unixsocket=os.path.join(self.tmp, "sock"))
         self.errors = errors
         self.ctx = callcontext.current_context
@@ -224,7 +246,16 @@ class Rig:
                     "seq": rig.ctx.seq, "flags": rig.ctx.msg_flags, "ser": rig.ctx.serializer_id,
                     "ann": sorted(rig.ctx.annotations.keys()), "corr": (rig.ctx.correlation_id.int if rig.ctx.correlation_id else None),
                     "peer": rig.ctx.client_sock_addr}))
+            if "release_during" in spec:
+                # let a gated oneway method of an earlier request write NOW, while this request is being handled
+                rig.gate(spec["release_during"]).set()
+                t0 = time.time()
+                while any(t.is_alive() for t in list(rig.gate_threads.get(spec["release_during"], []))):
+                    time.sleep(0.0005)
+                    if time.time() - t0 > WAIT:
+                        raise Stuck("gated oneway method did not finish")
             if "gate" in spec:
+                rig.gate_threads.setdefault(spec["gate"], []).append(threading.current_thread())
                 ev = rig.gate(spec["gate"])
                 rig.gated.add(threading.current_thread())
                 ev.wait(WAIT)
@@ -295,6 +326,11 @@ class Rig:
     def release(self, k):
         """let the gated (oneway) method `k` continue, and wait until it is through"""
         self.gate(k).set()
+        t0 = time.time()
+        while any(t.is_alive() for t in list(self.gate_threads.get(k, []))):
+            time.sleep(0.0005)
+            if time.time() - t0 > WAIT:
+                raise Stuck("released oneway method did not finish")
         self._wait_oneway()
 
     def resource(self, rid):
@@ -448,6 +484,8 @@ class Rig:
                 self.daemon.transportServer.selector = self.real_selector
             self.daemon.close()
         finally:
+            from Pyro5 import server as _server
+            _server._OnewayCallThread.run = self._orig_oneway_run
             (config.SERVERTYPE, config.THREADPOOL_SIZE, config.THREADPOOL_SIZE_MIN, config.COMMTIMEOUT,
              config.SERIALIZER, config.ITER_STREAMING, config.MAX_MESSAGE_SIZE, config.LOGWIRE) = self.saved
             shutil.rmtree(self.tmp, ignore_errors=True)
